@@ -88,38 +88,70 @@ class FamilyResult:
         self.wall_s = 0.0
 
 
-def _record_shard(build, ops, base):
+OPNAME = {"L": "line", "U": "unarmor", "D": "decode", "S": "ship", "R": "rot", "N": "new", "M": "meta"}
+
+
+def _stand_in(opline, kind):
+    op = opline.split(" ")
+    stand = {"op": OPNAME.get(op[0], "meta"), "r": "panic", "pmsg": kind, "agree": 1, "p": 0, "dec": 0, "b": [],
+             "fill": 0, "code": 0, "raw": 0}
+    if op[0] == "L":
+        stand.update(p=int(op[1]), dec=int(op[2]), b=list(bytes.fromhex(op[3])) if op[3] != "-" else [])
+    elif op[0] == "U":
+        stand.update(fill=int(op[1]), b=list(bytes.fromhex(op[2])) if op[2] != "-" else [])
+    elif op[0] == "D":
+        stand.update(b=list(bytes.fromhex(op[1])) if op[1] != "-" else [])
+    return json.dumps(stand).encode()
+
+
+def _record_shard(build, ops, base, unit_starts=None):
+    """Records one shard.  If the recorder process dies or hangs (an abort / non-termination of the code under
+    test is data, not a tool error), the operation at which output stopped gets a stand-in observation with
+    r = "panic", the operations up to the next scenario unit are marked skipped, and recording resumes there in a
+    fresh process (at most 3 times per shard)."""
     scen = base + ".scen"
     trace = base + ".ndjson"
-    with open(scen, "w") as f:
-        f.write("\n".join(ops))
-        f.write("\n")
+    events = []
+    start = 0
     aborted = None
-    try:
-        rc, out = B.record(build, scen, trace, timeout=900)
-    except subprocess.TimeoutExpired:
-        rc, out = -999, "timeout"
-    if rc != 0:
-        # The process died or hung: replay with per-op flushing to find where, then stand in a
-        # "panic" observation for that operation (an abort / hang of the code under test is data).
+    restarts = 0
+    while start < len(ops):
+        part = ops[start:]
+        with open(scen, "w") as f:
+            f.write("\n".join(part))
+            f.write("\n")
+        tmo = 20 + len(part) // 100
         try:
-            run([B.recorder_path(build), scen, trace], timeout=900, env={"AISOBS_FLUSH": "1"})
+            rc, out = B.record(build, scen, trace, timeout=tmo)
+        except subprocess.TimeoutExpired:
+            rc, out = -999, "timeout"
+        if rc == 0:
+            events += [l for l in open(trace, "rb").read().split(b"\n") if l]
+            break
+        try:
+            run([B.recorder_path(build), scen, trace], timeout=tmo, env={"AISOBS_FLUSH": "1"})
         except subprocess.TimeoutExpired:
             pass
         lines = open(trace, "rb").read().split(b"\n") if os.path.exists(trace) else []
         good = [l for l in lines if l.endswith(b"}")]
         idx = len(good)
-        kind = "hang (watchdog)" if rc == -999 else "abort (exit status %s)" % rc
-        if idx < len(ops):
-            op = ops[idx].split(" ")
-            stand = {"op": {"L": "line", "U": "unarmor", "D": "decode", "S": "ship", "R": "rot"}.get(op[0], "meta"),
-                     "r": "panic", "pmsg": kind, "agree": 1, "p": 0, "dec": 0, "b": [], "fill": 0, "code": 0, "raw": 0}
-            if op[0] == "L":
-                stand.update(p=int(op[1]), dec=int(op[2]), b=list(bytes.fromhex(op[3])) if op[3] != "-" else [])
-            good.append(json.dumps(stand).encode())
-        with open(trace, "wb") as f:
-            f.write(b"\n".join(good) + b"\n")
-        aborted = (idx, kind)
+        kind = "hang (watchdog: no answer within %d s)" % tmo if rc == -999 else "abort (exit status %s)" % rc
+        events += good
+        if idx >= len(part):
+            break
+        events.append(_stand_in(part[idx], kind))
+        aborted = (start + idx, kind)
+        restarts += 1
+        absidx = start + idx
+        nxt = None
+        if unit_starts and restarts <= 3:
+            nxt = next((u for u in unit_starts if u > absidx), None)
+        end_skip = nxt if nxt is not None else len(ops)
+        for j in range(absidx + 1, end_skip):
+            events.append(json.dumps({"op": "skipped", "why": "after " + kind}).encode())
+        start = end_skip
+    with open(trace, "wb") as f:
+        f.write(b"\n".join(events) + b"\n")
     return trace, aborted
 
 
@@ -147,7 +179,7 @@ def run_family(name, scenario, build, jobs=8, known=None, twin_merge=None, keep=
 
     def work(i):
         base = os.path.join(wdir, "s%03d" % i)
-        trace, aborted = _record_shard(build, flat[i], base)
+        trace, aborted = _record_shard(build, flat[i], base, [a for (a, b) in bounds[i]])
         if twin_merge:
             twin_merge(trace, i)
         res = T.validate_trace(trace, build, known)
